@@ -45,6 +45,8 @@ NAMES = {
     "mathfunc": {"S1": "S1", "S2": "S2", "k1": "exp", "k2": "math", "d": "log", "f": "fd", "C": "comp"},
     "timelike": {"S1": "t", "S2": "time_", "k1": "T", "k2": "dt", "d": "d1", "f": "fd", "C": "comp"},
     "modules": {"S1": "math", "S2": "S2", "k1": "scipy", "k2": "k2", "d": "numpy", "f": "fd", "C": "comp"},
+    # legal ids that are Python builtins the generated code itself calls for MathML max / min / abs / pow
+    "builtins": {"S1": "S1", "S2": "S2", "k1": "k1", "k2": "min", "d": "max", "f": "fd", "C": "pow"},  # (a function definition called abs is not expressible in the L3 formula syntax)
     # legal ids that coincide with names the importer's code generator makes up (init_<id> for initial assignments)
     "internal-S1": {"S1": "S1", "S2": "S2", "k1": "k1", "k2": "k2", "d": "init_S1", "f": "fd", "C": "comp"},
     "internal-k2": {"S1": "S1", "S2": "S2", "k1": "k1", "k2": "k2", "d": "init_k2", "f": "init_kq1", "C": "comp"},
@@ -268,6 +270,8 @@ def generate(tier):
             add(names=names, hosu=hosu, k2=k2, law=law, fdef=int(law == "fcall"))
     for names, hosu, k2, sia, law, chain in it.product(("internal-S1", "internal-k2"), (0, 1), K2, (0, 1), ("ma", "piecewise", "fcall"), (None, "fwd")):
         add(names=names, hosu=hosu, k2=k2, sia=sia, ruled=1, law=law, fdef=1, **({"iachain": chain} if chain else {}))
+    for hosu, k2, ruled, law in it.product((0, 1), K2, (0, 1), ("ma", "minmax", "abs", "power", "fcall", "ma-comp")):
+        add(names="builtins", hosu=hosu, k2=k2, ruled=ruled, law=law, fdef=int(law == "fcall"))
     # compartment whose size attribute (1) is overridden by an initial assignment (2)
     for compia, hosu, init, law, st, names in it.product(("const", "expr"), (0, 1), ("conc", "amount"), ("ma", "ma-comp", "piecewise"), ("one", "half", "rule"), ("plain", "keyword")):
         add(compia=compia, hosu=hosu, init=init, law=law, stoich=st, names=names)
